@@ -189,6 +189,57 @@ def flatten_cx(vals):
             out[k] = v
     return out
 
+# ---------------------------------------------------------------------------------------------------------------------------
+# Native replays must run the CURRENT sources, not whatever happens to be built under /repo: libfix8, f8c and the unit-test
+# schema library (libutest, generated by f8c from schema/FIX42UTEST.xml) are rebuilt from the working tree into the cache,
+# keyed by the content hash of the sources, the first time a replay needs them.
+RUNTIME_SRCS = ['xml', 'f8utils', 'message', 'traits', 'session', 'logger', 'persist', 'connection', 'configuration', 'consolemenu',
+                'filepersist', 'precomp', 'f8measure', 'gzstream']
+EXTRA_FIELDS = ("<field number='9999' name='SampleUserField'  type='STRING' messages='NewOrderSingle:N ExecutionReport:N OrderCancelRequest:Y' />"
+                "<field number='9991' name='SampleUserField2' type='STRING' messages='NewOrderSingle:N ExecutionReport:N OrderCancelRequest:Y' />")
+_libdir = None
+def repo_libs(say=print):
+    """returns a directory holding libfix8.so, libutest.so (+ its generated headers) and f8c built from REPO's current sources"""
+    global _libdir
+    if _libdir: return _libdir
+    d = os.path.join(CACHE, 'repolib_' + repo_hash())
+    if os.path.exists(os.path.join(d, '.ok')): _libdir = d; return d
+    tmp = d + '.tmp.%d' % os.getpid(); shutil.rmtree(tmp, ignore_errors=True); os.makedirs(tmp)
+    t0 = time.time()
+    inc = ['-I' + REPO, '-I' + REPO + '/include', '-I' + REPO + '/runtime', '-DHAVE_CONFIG_H', '-w', '-fPIC', '-O0', '-g0']
+    def cc(args):
+        r = sh(args)
+        if r.returncode != 0: raise Broken('building the repository libraries from source failed: %s\n%s' % (' '.join(args[:6]), r.stdout[-2000:]))
+    srcs = [os.path.join(REPO, 'runtime', s + '.cpp') for s in RUNTIME_SRCS if os.path.exists(os.path.join(REPO, 'runtime', s + '.cpp'))]
+    jobs = [(['g++', *inc, '-c', s, '-o', os.path.join(tmp, 'rt_' + os.path.basename(s) + '.o')]) for s in srcs]
+    jobs.append(['gcc', *inc, '-c', os.path.join(REPO, 'runtime', 'modp_numtoa.c'), '-o', os.path.join(tmp, 'rt_modp.o')])
+    comp = [os.path.join(REPO, 'compiler', s) for s in ('f8c.cpp', 'f8cutils.cpp', 'f8precomp.cpp', 'precomp.cpp') if os.path.exists(os.path.join(REPO, 'compiler', s))]
+    jobs += [(['g++', *inc, '-I' + REPO + '/compiler', '-c', s, '-o', os.path.join(tmp, 'fc_' + os.path.basename(s) + '.o')]) for s in comp]
+    with cf.ThreadPoolExecutor(NCPU) as ex: list(ex.map(cc, jobs))
+    poco = ['-lPocoNet', '-lPocoUtil', '-lPocoFoundation', '-lz', '-lpthread']
+    cc(['g++', '-shared', '-o', os.path.join(tmp, 'libfix8.so'), *sorted(glob.glob(os.path.join(tmp, 'rt_*.o'))), *poco])
+    cc(['g++', '-o', os.path.join(tmp, 'f8c'), *sorted(glob.glob(os.path.join(tmp, 'fc_*.o'))), '-L' + tmp, '-lfix8', '-Wl,-rpath,' + d, *poco])
+    # unit-test schema classes, generated by the tree's own f8c
+    env = dict(os.environ, LD_LIBRARY_PATH=tmp + ':' + os.environ.get('LD_LIBRARY_PATH', ''))
+    r = subprocess.run([os.path.join(tmp, 'f8c'), '-sVp', 'utest', '-n', 'UTEST', os.path.join(REPO, 'schema', 'FIX42UTEST.xml'), '-F', EXTRA_FIELDS],
+                       cwd=tmp, env=env, stdout=subprocess.PIPE, stderr=subprocess.STDOUT, text=True)
+    if r.returncode != 0 or not os.path.exists(os.path.join(tmp, 'utest_classes.cpp')): raise Broken('f8c (built from source) failed on FIX42UTEST.xml: ' + r.stdout[-800:])
+    with cf.ThreadPoolExecutor(NCPU) as ex:
+        list(ex.map(cc, [['g++', *inc, '-I' + tmp, '-c', os.path.join(tmp, s + '.cpp'), '-o', os.path.join(tmp, 'ut_' + s + '.o')] for s in ('utest_types', 'utest_traits', 'utest_classes')]))
+    cc(['g++', '-shared', '-o', os.path.join(tmp, 'libutest.so'), *sorted(glob.glob(os.path.join(tmp, 'ut_*.o'))), '-L' + tmp, '-lfix8', '-Wl,-rpath,' + d])
+    for f in glob.glob(os.path.join(tmp, '*.o')): os.unlink(f)
+    open(os.path.join(tmp, '.ok'), 'w').write('built %.0fs\n' % (time.time() - t0))
+    shutil.rmtree(d, ignore_errors=True); os.rename(tmp, d)
+    say('  [repolibs] libfix8, f8c, libutest rebuilt from the working tree in %.0fs' % (time.time() - t0))
+    _libdir = d; return d
+
+def _relib(args):
+    """redirect references to the repository's own build output to the source-built copies"""
+    rt, ut, fc = REPO + '/runtime/.libs', REPO + '/utests/.libs', REPO + '/compiler/.libs'
+    if not any((rt in a or ut in a or fc in a) for a in args): return list(args), None
+    d = repo_libs()
+    return [a.replace(rt, d).replace(ut, d).replace(fc, d) for a in args], d
+
 class Ctx:
     def __init__(s, pid, tier, seed):
         s.pid = pid; s.tier = tier; s.seed = seed; s.t0 = time.time()
@@ -244,6 +295,8 @@ class Ctx:
     def native(s, name, sources, *, cxx='g++', flags=('-O1',), libs=(), defines=()):
         """build a native program from /verif sources + real repo sources; cached by content"""
         srcs = [p if os.path.isabs(p) else os.path.join(VERIF, p) for p in sources]
+        libs, libd = _relib(list(libs)); flags, libd2 = _relib(list(flags)); libd = libd or libd2
+        if libd: flags = ['-I' + libd] + list(flags)          # generated utest_*.hpp of the source-built schema library first
         key = file_hash(repo_hash(), cxx, ' '.join(flags), ' '.join(libs), ' '.join(defines), *srcs)
         exe = os.path.join(CACHE, 'bin_%s_%s' % (name, key))
         if os.path.exists(exe): return exe
